@@ -85,6 +85,20 @@ struct Mv
     }
 };
 static_assert(sizeof(Mv) == 8);
+// copy constructor and destructor trivial, move constructor user-provided: "trivially copy
+// constructible" is not "a byte copy is as good as a move" (seeded change C15j)
+struct Tok
+{
+    std::int32_t v = 0;
+    mutable std::int32_t moved = 0;
+    Tok() = default;
+    explicit Tok(std::int32_t x) : v(x) {}
+    Tok(const Tok&) = default;
+    Tok(Tok&& o) noexcept : v(o.v) { ++o.moved; }
+    Tok& operator=(const Tok&) = default;
+};
+static_assert(sizeof(Tok) == 8 && std::is_trivially_copy_constructible_v<Tok> && std::is_trivially_destructible_v<Tok> &&
+              !std::is_trivially_copyable_v<Tok>);
 
 // a trivially copyable source whose conversion to the stored type depends on the value category:
 // Handle(Raw&&) adopts the descriptor and resets the source, Handle(const Raw&) only looks at it
@@ -103,11 +117,11 @@ struct Handle
 static_assert(std::is_trivially_copyable_v<Raw> && sizeof(Raw) == 4 && sizeof(Handle) == 8);
 
 template <class T, class U>
-inline constexpr bool TRACKS_MOVES = std::is_same_v<U, Mv> || (std::is_same_v<U, Raw> && std::is_same_v<T, Handle>);
+inline constexpr bool TRACKS_MOVES = std::is_same_v<U, Mv> || std::is_same_v<U, Tok> || (std::is_same_v<U, Raw> && std::is_same_v<T, Handle>);
 template <class U>
 int moved_count(const U& x)
 {
-    if constexpr (std::is_same_v<U, Mv>)
+    if constexpr (std::is_same_v<U, Mv> || std::is_same_v<U, Tok>)
         return x.moved;
     else if constexpr (std::is_same_v<U, Raw>)
         return x.fd == -1 ? 1 : 0;
@@ -140,6 +154,8 @@ U make(long val)
         return Wrap{static_cast<std::int32_t>(val)};
     else if constexpr (std::is_same_v<U, Mv>)
         return Mv{static_cast<std::int32_t>(val)};
+    else if constexpr (std::is_same_v<U, Tok>)
+        return Tok{static_cast<std::int32_t>(val)};
     else if constexpr (std::is_same_v<U, Raw>)
         return Raw{static_cast<std::int32_t>(val)};
     else if constexpr (std::is_same_v<U, Handle>)
